@@ -160,5 +160,18 @@ def run(ctx):
         ctx.add_violations(vs)
     ctx.sub("lists_x_settings", states=n, transitions=tr, evaluations=n, traces=n, distinct_nontrivial=sum(len(SETTINGS) for ix in lists if len(ix) >= 2),
             exhaustive=True, lists=len(lists), max_length=maxlen, reference_entries=len(table))
+    # long lists: lengths around powers of two, built by cycling the alphabet from each starting entry of the tier
+    long_lists = []
+    starts = order[:3] if ctx.quick else order
+    for L in (5, 8, 15, 16, 17, 31, 32, 33, 64, 65):
+        for st in starts:
+            long_lists.append(tuple(order[(order.index(st) + k) % len(order)] for k in range(L)))
+    m = tr2 = 0
+    for cnt, t, vs in ctx.pmap_forked(chunk, [(ix, table) for ix in long_lists], chunksize=1):
+        m += cnt
+        tr2 += t
+        ctx.add_violations(vs)
+    ctx.sub("long_lists_x_settings", states=m, transitions=tr2, evaluations=m, traces=m, distinct_nontrivial=m, exhaustive=True,
+            lengths=[5, 8, 15, 16, 17, 31, 32, 33, 64, 65], lists=len(long_lists))
     ctx.sample({"subcheck": "list", "entries": [repr(E[i][0]) for i in (6, 0, 8)], "mode": 1, "very_readable": False})
     ctx.sample({"subcheck": "list", "entries": [], "mode": 0, "very_readable": True})
